@@ -1,9 +1,9 @@
 package worlds
 
 import (
-	"os"
 	"bytes"
 	"fmt"
+	"os"
 	"sort"
 	"strconv"
 	"strings"
